@@ -13,3 +13,5 @@ CONSTANTS
   InitKinds = "live"
   WithDrain = FALSE
   PartFix = TRUE
+  SubAt = "first"
+  SyncSteps = FALSE
